@@ -253,17 +253,10 @@ pub fn run_one<W: World>(ops: &[W::Op], obs: &mut Obs) -> Outcome {
             // a panic whose location is one of the harness's own files (built with relative paths,
             // `src/…`; the crate and the standard library have absolute ones) is our bug, not a finding
             let in_harness = msg.rsplit(" at ").next().map(|loc| loc.starts_with("src/")).unwrap_or(false);
-            // … and a panic in crate code outside the files this property is anchored in belongs to
-            // some other property (e.g. a container setter panicking while a bit-set history runs)
-            let loc = msg.rsplit(" at ").next().unwrap_or("");
-            let in_anchor = W::anchored_files().iter().any(|f| loc.contains(f)) && !loc.contains("/.cargo/") && !loc.contains("/registry/");
-            let foreign = !in_harness && loc.starts_with('/') && !W::anchored_files().is_empty() && !in_anchor && !loc.contains("/rustc/") && !loc.contains("/library/");
-            if foreign {
-                let mut d = fold(FNV_OFFSET, 0xF0E1);
-                d = fold(d, step as u64);
-                obs.log(format!("#{} panic in crate code outside this property's files ({}): history given up, not judged", step, msg));
-                return Outcome { digest: d, steps: step as u32 + 1, violation: None, nontrivial: false };
-            }
+            // (Every crate call the property does not judge — container construction on behalf of
+            // the bit-set world, sort_in_place, the environment operations — runs under
+            // `swallow_crate_panic`; a panic that arrives here happened inside a judged call, whatever
+            // file the unwinding started in.)
             let class = if in_harness { format!("harness-panic/{}/{}", W::op_kinds().get(kind).copied().unwrap_or("?"), sub) } else { format!("panic/{}/{}", W::op_kinds().get(kind).copied().unwrap_or("?"), sub) };
             let mut d = fold(FNV_OFFSET, 0xDEAD);
             d = fold(d, step as u64);
